@@ -44,7 +44,7 @@ OBLIGATIONS = [
 ]
 
 META = {
-    'level': 'proof',
+    'level': 'proof', 'bounded_apart': True,
     'trusted_base': ['CBMC 6.11', 'sequential meaning of uatomic_load/store and cmm_* (atomics_seq.h)',
                      'must-fire scratch rewrites: DQ_FCT_MARK widening (same value under GCC), fct(p) -> recorder, loop-contract marker',
                      'assumed contract of synchronize_rcu (C01)', 'pthread/futex stubs'],
